@@ -172,6 +172,24 @@ fn attribute_points(xml: &str) -> Vec<usize> {
     pts
 }
 
+/// offset of the `>` (or of the `/` of `/>`) that closes the start tag containing offset `p`, quotes respected
+fn start_tag_end(xml: &str, p: usize) -> Option<usize> {
+    let b = xml.as_bytes();
+    let mut q: Option<u8> = None;
+    let mut i = p;
+    while i < b.len() {
+        match (q, b[i]) {
+            (Some(c), x) if x == c => q = None,
+            (Some(_), _) => {}
+            (None, b'"') | (None, b'\'') => q = Some(b[i]),
+            (None, b'>') => return Some(if i > p && b[i - 1] == b'/' { i - 1 } else { i }),
+            _ => {}
+        }
+        i += 1;
+    }
+    None
+}
+
 pub fn exec(line: &str) -> String {
     eng_reader::exec(line)
 }
@@ -183,6 +201,9 @@ fn same_scene(a: &Scene, b: &Scene) -> Vec<Diff> {
 
 pub fn generate(sink: &mut Sink, seed: u64, thorough: bool) {
     let mut rng = Rng::new(seed ^ 0xF0E1);
+    // counts the plain attribute insertions: placement (front or end of the start tag) and the blob elements
+    // are taken in turn from it, so that no random draw is added and every other case keeps its stream
+    let mut attr_turn = 0usize;
     let n = if thorough { 1500 } else { 220 };
     let mut made = 0;
     let mut tries = 0;
@@ -364,6 +385,26 @@ pub fn generate(sink: &mut Sink, seed: u64, thorough: bool) {
                 (*rng.pick(&limit_pts), format!(" fx:precision=\"{}\"", *rng.pick(&["single", "double"])), "attribute")
             } else {
                 let at = if !float_pts.is_empty() && rng.chance(1, 2) { *rng.pick(&float_pts) } else { *rng.pick(&pts) };
+                let (mut at, mut a, mut v) = (at, a, v);
+                attr_turn += 1;
+                // blob elements (image payloads, masks): their fileOffset / length attributes decide which bytes are
+                // returned, so every second attribute case of a document with images goes there
+                let blob_pts: Vec<usize> = pts.iter().copied().filter(|&p| xml[p..].split('\n').next().map(|l| l.contains("type=\"Blob\"")).unwrap_or(false)).collect();
+                if !blob_pts.is_empty() && attr_turn % 2 == 0 {
+                    let k = attr_turn / 2;
+                    at = blob_pts[k % blob_pts.len()];
+                    let (a2, v2) = [("fileOffset", "0"), ("length", "0"), ("fileOffset", "99999999"), ("length", "1")][(k / 2) % 4];
+                    a = a2;
+                    v = v2;
+                    sink.stat("insert_attribute_on_blob_element");
+                }
+                // behind the element's own attributes instead of in front of them, every other time
+                if (attr_turn / 2) % 2 == 1 {
+                    if let Some(e) = start_tag_end(&xml, at) {
+                        at = e;
+                        sink.stat("insert_attribute_at_end_of_tag");
+                    }
+                }
                 (at, format!(" fx:{a}=\"{v}\""), "attribute")
             }
         } else if rng.chance(1, 6) {
